@@ -1036,8 +1036,15 @@ mod verif_inflate_core {
     #[kani::stub(HuffmanTable::lookup, model_lookup)]
     #[kani::stub(apply_match, model_apply_match)]
     #[kani::stub(transfer, model_transfer)]
-    fn k_decompress_fast_bounded() {
-        const BIG: usize = 320;
+    fn k_decompress_fast_bounded() { decompress_fast_body::<320>(); }
+    /// same with a 512-byte ring reachable (a distance equal to the ring size is a valid match)
+    #[kani::proof]
+    #[kani::unwind(4)]
+    #[kani::stub(HuffmanTable::lookup, model_lookup)]
+    #[kani::stub(apply_match, model_apply_match)]
+    #[kani::stub(transfer, model_transfer)]
+    fn k_decompress_fast_bounded_ring512() { decompress_fast_body::<520>(); }
+    fn decompress_fast_body<const BIG: usize>() {
         LK_LIMIT.store(5, ::core::sync::atomic::Ordering::Relaxed);
         let mut r = any_decompressor(DecodeLitlen);
         let mut l = any_l();
@@ -1052,7 +1059,7 @@ mod verif_inflate_core {
         let flags: u32 = kani::any();
         kani::assume(outl <= BIG && pos <= outl);
         let flat = flags & TINFL_FLAG_USING_NON_WRAPPING_OUTPUT_BUF != 0;
-        kani::assume(flat || matches!(outl, 0 | 1 | 2 | 4 | 8 | 16 | 32 | 64 | 128 | 256));
+        kani::assume(flat || matches!(outl, 0 | 1 | 2 | 4 | 8 | 16 | 32 | 64 | 128 | 256 | 512));
         let mask: usize = if flat { usize::MAX } else { outl.saturating_sub(1) };
         let mut in_iter = InputWrapper::from_slice(&inb[..inl]);
         let mut ob = OutputBuffer::from_slice_pos_and_max(&mut out[..outl], pos, budget);
@@ -1075,6 +1082,7 @@ mod verif_inflate_core {
         }
         kani::cover!(st == TINFLStatus::Failed, "COV:fast.failed");
         kani::cover!(AM_CALLS.load(::core::sync::atomic::Ordering::Relaxed) >= 1, "COV:fast.match");
+        if BIG >= 512 { kani::cover!(!flat && AM_CALLS.load(::core::sync::atomic::Ordering::Relaxed) >= 1 && l.dist as usize == outl, "COV:fast.distance_equal_to_ring_size"); }
     }
 
     // ------------------------------------------------------------------
